@@ -338,7 +338,12 @@ def _mode_t(ctx, direction):
     configure(ctx, w, pair, 0x180 + w.nid if direction == "tpdo" else 0x200 + w.nid, gen_layout(ctx), via_save=False)
     cons, prod = pair.cons, pair.prod
     receptions = []         # (virtual time, timestamp) logged inside on_message
-    cons.add_callback(lambda m: receptions.append((ctx.now, m.timestamp)))
+    def on_rx(m):
+        receptions.append((ctx.now, m.timestamp))
+        if slow_callback:
+            ctx.tick(slow_callback)     # the application's callback does some work (a scheduling point)
+    slow_callback = (0, 20 * US, 300 * US)[ctx.choice(3, "slowcb")]
+    cons.add_callback(on_rx)
     entries = []
     cond = cons.receive_condition
     orig_wait = cond.wait
@@ -349,14 +354,18 @@ def _mode_t(ctx, direction):
     cond.wait = wait_logged
     nframes = ctx.choice(5, "nframes")
     gaps = [ctx.choice(6, "gap") for _ in range(nframes)]
+    fine = [ctx.choice(200, "gapfine") * 5e-6 for _ in range(nframes)]
     nwaits = 1 + ctx.choice(3, "nwaits")
     timeouts = [(0.002, 0.02, 0.2)[ctx.choice(3, "timeout")] for _ in range(nwaits)]
+    # the waiter does something else between two waits, so that it may enter a
+    # wait while a frame is just being processed by the receive task
+    think = [ctx.choice(400, "think") * 5e-6 if ctx.choice(2, "thinks") else 0 for _ in range(nwaits)]
     results = []
     snaps = []
 
     def producer():
-        for g in gaps:
-            prims_sleep((0, 0.0005, 0.003, 0.015, 0.05, 0.3)[g])
+        for g, f in zip(gaps, fine):
+            prims_sleep((0, 0.0005, 0.003, 0.015, 0.05, 0.3)[g] + f)
             assign(ctx, pair, "producer task")
             snaps.append(list(pair.values))
             prod.transmit()
@@ -365,7 +374,9 @@ def _mode_t(ctx, direction):
         ctx.sleep(sec)
 
     def waiter():
-        for to in timeouts:
+        for to, th in zip(timeouts, think):
+            if th:
+                ctx.sleep(th)
             t0 = ctx.now
             n0 = len(entries)
             r = cons.wait_for_reception(to)
@@ -386,6 +397,8 @@ def _mode_t(ctx, direction):
         if r is None:
             if window:
                 ctx.violation("C15/waiter-not-woken", what)
+            if t1 < entered + int(to * SEC):
+                ctx.violation("C15/waiter-returned-none-before-timeout", what)
             ctx.probe("wait-none")
         else:
             ok = [ts for a, ts in receptions if a >= entered and a <= t1 and ts == r]
